@@ -20,6 +20,13 @@ Facts extracted
   startup.py   reset_interrupted_steps: the two UPDATEs (new state, old state) and the FAILED loop;
                rescan_files: the cause chosen for an UNCONFIRMED row
   director.py  serve(): _wire_director (initialize) -> initialize_boot -> resume_from_db
+  startup.py   the TRANSACTION STRUCTURE of the rescans: for rescan_env_vars and rescan_nglobs the list
+               of `async with workflow.db` blocks, each a list of statement codes (every statement
+               inside a block must be recognised; no database call or mark_step_pending may stand
+               outside a block); workflow.py persist_nglob_matches (statement order, no transaction
+               of its own); executor.py _run_hash_job (one transaction that applies the result with
+               update_file_hashes, guarded by "changed or CONFIRMED"); rescan_files (one reading
+               block, hashes gathered outside any transaction)
 """
 from __future__ import annotations
 
@@ -259,6 +266,174 @@ def startup_facts() -> tuple[list, bool, str]:
     return updates, failed_loop, cause[0] + "/" + cause[1]
 
 
+# -- transaction structure of the rescans -----------------------------------------------------
+
+
+def _db_calls(node) -> list:
+    """Dotted names of the calls under ``node`` that touch the database or mark steps."""
+    out = []
+    for c in _calls_in(node):
+        if (".db.execute" in c or c.startswith("db.execute") or "mark_step_pending" in c
+                or "persist_nglob_matches" in c or "update_file_hashes" in c or "delete_hash" in c
+                or "nglob_registrations" in c):
+            out.append(c)
+    return out
+
+
+def _blocks_of(fn, classify, what: str) -> list:
+    """The `async with <db>` blocks of ``fn`` in source order (a block may sit under one `if` guard
+    or more), each as the list of codes ``classify`` gives to its statements.  Anything touching
+    the database outside a block is an error."""
+    blocks = []
+
+    def walk(stmts, depth):
+        for stmt in stmts:
+            if _is_db_with(stmt):
+                codes = []
+                for inner in stmt.body:
+                    code = classify(inner)
+                    if code is None:
+                        raise TranslatorError(f"{what}: unrecognised statement inside a transaction: "
+                                              f"{_name(inner)[:120]}")
+                    codes.append(code)
+                blocks.append(codes)
+            elif isinstance(stmt, ast.If) and any(isinstance(n, ast.AsyncWith) for n in ast.walk(stmt)):
+                if stmt.orelse:
+                    raise TranslatorError(f"{what}: transaction under an if/else")
+                walk(stmt.body, depth + 1)
+            else:
+                if any(isinstance(n, ast.AsyncWith) for n in ast.walk(stmt)):
+                    raise TranslatorError(f"{what}: transaction nested in {type(stmt).__name__}")
+                bad = _db_calls(stmt)
+                if bad:
+                    raise TranslatorError(f"{what}: {bad} outside any transaction")
+    walk(body_without_docstring(fn), 0)
+    return blocks
+
+
+def rescan_env_vars_blocks() -> list:
+    """1 = SELECT the env_var rows of attached steps; 2 = mark_step_pending for the steps to rerun;
+    3 = UPDATE env_var SET value = ? WHERE node = ? AND name = ?."""
+    tree = parse_module(f"{CORE}/startup.py")
+    fn = find_function(tree, "rescan_env_vars")
+    src = _name(fn)
+    # what the rows are compared with, in memory
+    for needle in ("new_value = os.getenv(name)", "if new_value == old_value:\n            continue",
+                   "steps_to_rerun[node_i] = Step(workflow, node_i, label)"):
+        if needle not in src:
+            raise TranslatorError(f"rescan_env_vars: expected `{needle}`")
+    sqls = [n.value for n in ast.walk(fn) if isinstance(n, ast.Assign) and len(n.targets) == 1
+            and _name(n.targets[0]) == "sql"]
+    if len(sqls) != 1:
+        raise TranslatorError("rescan_env_vars: expected one sql text")
+    text = " ".join("".join(_strs(sqls[0])).split())
+    if text != ("SELECT node, label, name, value FROM env_var JOIN node ON env_var.node = node.i "
+                "WHERE NOT node.detached"):
+        raise TranslatorError(f"rescan_env_vars: unexpected SELECT: {text}")
+
+    def classify(stmt):
+        t = _name(stmt)
+        if t == "env_var_uses = workflow.db.execute(sql).fetchall()":
+            return 1
+        if t == "for step in steps_to_rerun.values():\n    workflow.mark_step_pending(step)":
+            return 2
+        if (isinstance(stmt, ast.Expr) and isinstance(stmt.value, ast.Call)
+                and _name(stmt.value.func) == "workflow.db.executemany" and len(stmt.value.args) == 2
+                and isinstance(stmt.value.args[0], ast.Constant)
+                and stmt.value.args[0].value == "UPDATE env_var SET value = ? WHERE node = ? AND name = ?"):
+            return 3
+        return None
+    return _blocks_of(fn, classify, "rescan_env_vars")
+
+
+def _strs(node):
+    for n in ast.walk(node):
+        if isinstance(n, ast.Constant) and isinstance(n.value, str):
+            yield n.value
+
+
+def rescan_nglobs_blocks() -> tuple[list, list]:
+    """blocks: 1 = read the registrations, 2 = persist_nglob_matches for every changed registration;
+    statements of Workflow.persist_nglob_matches: 1 = step.delete_hash, 2 = UPDATE nglob SET data,
+    3 = mark_step_pending."""
+    tree = parse_module(f"{CORE}/startup.py")
+    fn = find_function(tree, "rescan_nglobs")
+
+    def classify(stmt):
+        t = _name(stmt)
+        if t == "registrations = list(workflow.nglob_registrations())":
+            return 1
+        if t == ("for nglob_i, step, new_ng in changed_nglobs:\n"
+                 "    workflow.persist_nglob_matches(nglob_i, step, new_ng)"):
+            return 2
+        return None
+    blocks = _blocks_of(fn, classify, "rescan_nglobs")
+    wtree = parse_module(f"{CORE}/workflow.py")
+    pn = find_function(wtree, "persist_nglob_matches", "Workflow")
+    if any(isinstance(n, (ast.AsyncWith, ast.With)) for n in ast.walk(pn)):
+        raise TranslatorError("persist_nglob_matches opens a context")
+    stmts = []
+    for stmt in body_without_docstring(pn):
+        t = _name(stmt)
+        if t == "step.delete_hash()":
+            stmts.append(1)
+        elif t == "self.db.execute('UPDATE nglob SET data = ? WHERE i = ?', data)":
+            stmts.append(2)
+        elif t == "self.mark_step_pending(step)":
+            stmts.append(3)
+        elif t == "data = (json.dumps(json_converter.unstructure(ng)), nglob_i)":
+            continue
+        else:
+            raise TranslatorError(f"persist_nglob_matches: unrecognised statement {t[:100]}")
+    return blocks, stmts
+
+
+def hash_job_structure() -> tuple[list, list]:
+    """Executor._run_hash_job: its transactions (1 = update_file_hashes of the one path, guarded by
+    the stale-confirmation test) and whether the transaction is guarded by `changed or CONFIRMED`;
+    startup.rescan_files: its blocks (1 = SELECT of the rows to check)."""
+    tree = parse_module(f"{CORE}/executor.py")
+    fn = find_function(tree, "_run_hash_job", "Executor")
+    txns = [n for n in ast.walk(fn) if _is_db_with(n)]
+    out = []
+    for t in txns:
+        body = [_name(x) for x in t.body]
+        if body != ["if not self._is_stale_confirmation(hash_job):\n"
+                    "    self.workflow.update_file_hashes({hash_job.path: new_hash}, cause=hash_job.cause)"]:
+            raise TranslatorError(f"_run_hash_job: unexpected transaction body {body}")
+        out.append(1)
+    guard_ok = False
+    for node in ast.walk(fn):
+        if isinstance(node, ast.If) and any(_is_db_with(x) for x in node.body):
+            guard_ok = _name(node.test) == ("new_hash != hash_job.old_hash or "
+                                            "hash_job.cause == HashUpdateCause.CONFIRMED")
+    if not guard_ok:
+        raise TranslatorError("_run_hash_job: the transaction is not guarded by `changed or CONFIRMED`")
+    for c in _calls_in(fn):
+        if "update_file_hashes" in c and len(txns) != 1:
+            raise TranslatorError("_run_hash_job: expected exactly one transaction")
+    # every update_file_hashes call is inside the transaction
+    inside = sum(1 for t in txns for c in _calls_in(t) if "update_file_hashes" in c)
+    total = sum(1 for c in _calls_in(fn) if "update_file_hashes" in c)
+    if inside != total:
+        raise TranslatorError("_run_hash_job: update_file_hashes outside its transaction")
+    stree = parse_module(f"{CORE}/startup.py")
+    rf = find_function(stree, "rescan_files")
+
+    def classify(stmt):
+        if _name(stmt) == "rows = workflow.db.execute(sql, data).fetchall()":
+            return 1
+        return None
+    rblocks = _blocks_of(rf, classify, "rescan_files")
+    src = _name(rf)
+    if "new_hashes = await gather_hashes(builder.hash_queue, builder.executor, reporter, path_hash_causes, builder.njob)" not in src:
+        raise TranslatorError("rescan_files: gather_hashes call not found")
+    if "state NOT IN (?, ?) AND NOT detached" not in " ".join(_strs(rf)) or \
+            "data = (FileState.PLANNED.value, FileState.VOLATILE.value)" not in src:
+        raise TranslatorError("rescan_files: unexpected selection of rows")
+    return out, rblocks
+
+
 def serve_order() -> list:
     tree = parse_module(f"{CORE}/director.py")
     fn = find_function(tree, "serve")
@@ -283,12 +458,18 @@ def generate() -> str:
     ej = execute_job()
     updates, failed_loop, cause = startup_facts()
     so = serve_order()
+    env_blocks = rescan_env_vars_blocks()
+    ng_blocks, ng_stmts = rescan_nglobs_blocks()
+    hj_txns, rf_blocks = hash_job_structure()
 
     def b(x):
         return "true" if x else "false"
 
     def nl(xs):
         return "[" + "; ".join(str(x) for x in xs) + "]"
+
+    def nll(xss):
+        return "[" + "; ".join(nl(xs) for xs in xss) + "]"
 
     upd = "[" + "; ".join(f"({STATE[a]}, {STATE[o]})" for a, o in updates) + "]"
     cause_code = {"HashUpdateCause.CONFIRMED/HashUpdateCause.EXTERNAL": 54}.get(cause)
@@ -328,6 +509,22 @@ Definition rescan_unconfirmed_cause : N := {cause_code}.
 (* director.serve: 1 = _wire_director (initialize), 2 = initialize_boot, 3 = resume_from_db,
    4 = reconcile_targets, 5 = _run_tasks *)
 Definition serve_sequence : list N := {nl(so)}.
+
+(* Transaction structure of the rescans of startup.resume_from_db: the `async with workflow.db`
+   blocks in source order, each the list of its statements.
+   rescan_env_vars: 1 = SELECT the env_var rows of attached steps, 2 = mark_step_pending for the
+   steps with a changed variable, 3 = UPDATE env_var SET value = <seen now> for the changed rows *)
+Definition rescan_env_vars_blocks : list (list N) := {nll(env_blocks)}.
+(* rescan_nglobs: 1 = read the registrations, 2 = persist_nglob_matches for the changed ones;
+   Workflow.persist_nglob_matches (no transaction of its own): 1 = Step.delete_hash,
+   2 = UPDATE nglob SET data, 3 = mark_step_pending *)
+Definition rescan_nglobs_blocks : list (list N) := {nll(ng_blocks)}.
+Definition persist_nglob_statements : list N := {nl(ng_stmts)}.
+(* rescan_files: 1 = SELECT the rows to check (hashes are gathered outside any transaction);
+   Executor._run_hash_job: its transactions, 1 = update_file_hashes of the one path (stores the
+   hash and marks the affected steps), guarded by `changed or CONFIRMED` *)
+Definition rescan_files_blocks : list (list N) := {nll(rf_blocks)}.
+Definition run_hash_job_transactions : list N := {nl(hj_txns)}.
 """
 
 
